@@ -47,27 +47,35 @@ impl KkState {
 /// a mutating operation on the key-keeper actor (one per call of a mutating wrapper method)
 pub enum Mut { RuleId(Endpoint, Seq<char>), Rules(Endpoint), SetKey, ClearKey, State(Seq<char>) }
 
-pub tracked struct W {
+/// the key-keeper actor as this iteration sees it
+pub tracked struct Actor {
     pub ghost s: KkState,                      // the actor state
     pub ghost muts: Seq<Mut>,                  // mutating wrapper calls made by this iteration, in order
-    pub ghost actor_failed: bool,              // some wrapper call returned Err (actor task gone / channel closed)
-    pub ghost redirects: Seq<(Endpoint, bool)>,// redirect-policy updates made by this iteration, in order
+    pub ghost failed: bool,                    // some wrapper call returned Err (actor task gone / channel closed)
+}
+impl Actor {
+    pub open spec fn did(self, s: KkState, m: Mut) -> Actor { Actor { s, muts: self.muts.push(m), failed: self.failed } }
+    /// a wrapper call that returned Err: the call was made, the actor may or may not have performed it
+    pub open spec fn call_failed(self, s: KkState, m: Mut) -> Actor { Actor { s, muts: self.muts.push(m), failed: true } }
+    pub open spec fn read_failed(self) -> Actor { Actor { failed: true, ..self } }
+}
+/// the host as this iteration sees it
+pub tracked struct Host {
     pub ghost status: Option<KeyStatus>,       // the answer to this iteration's status request; None: failed or invalid
     pub ghost acquired: Option<Key>,           // the key the host handed out in this iteration (acquire_key Ok)
     pub ghost attested: Option<Key>,           // the key the host latched in this iteration (attest_key Ok)
     pub ghost attest_calls: nat,               // number of attest requests sent
     pub ghost acquire_calls: nat,              // number of acquire requests sent
-    pub ghost key_dir: PathId,                 // the configured key directory
     pub ghost completed: bool,                 // the iteration ran to its end (no `continue`)
 }
-impl W {
-    pub open spec fn fresh(self) -> bool {
-        self.muts.len() == 0 && !self.actor_failed && self.redirects.len() == 0 && self.status is None && self.acquired is None
-        && self.attested is None && self.attest_calls == 0 && self.acquire_calls == 0 && !self.completed
-    }
-    pub open spec fn did(self, s: KkState, m: Mut) -> W { W { s, muts: self.muts.push(m), ..self } }
-    /// a wrapper call that returned Err: the call was made, the actor may or may not have performed it
-    pub open spec fn failed(self, s: KkState, m: Mut) -> W { W { s, muts: self.muts.push(m), actor_failed: true, ..self } }
+/// the redirector as this iteration sees it
+pub tracked struct Redir {
+    pub ghost updates: Seq<(Endpoint, bool)>,  // redirect-policy updates made by this iteration, in order
+}
+/// start of an iteration: nothing done yet
+pub open spec fn fresh(a: Actor, h: Host, rd: Redir) -> bool {
+    a.muts == Seq::<Mut>::empty() && !a.failed && rd.updates == Seq::<(Endpoint, bool)>::empty() && h.status is None && h.acquired is None
+    && h.attested is None && h.attest_calls == 0 && h.acquire_calls == 0 && !h.completed
 }
 
 /// the reply of get_current_key_guid for an actor key
@@ -79,17 +87,17 @@ pub open spec fn guid_reply(g: Option<String>, key: Option<Key>) -> bool {
 //      check_key / attest_key / fetch_key on the SAME key ----
 /// attest_key(k) may be called only when k is the key the host just handed out, its complete JSON is under its final name
 /// in the key directory (store_key Ok) and it was read back identically from there (check_key Ok)
-pub open spec fn may_attest(fs: Fs, w: W, k: Key) -> bool {
-    w.acquired == Some(k) && stored_complete(fs, w.key_dir, k) && read_back_identical(fs, w.key_dir, k)
+pub open spec fn may_attest(fs: Fs, h: Host, dir: PathId, k: Key) -> bool {
+    h.acquired == Some(k) && stored_complete(fs, dir, k) && read_back_identical(fs, dir, k)
 }
 /// update_key(k) may be called only for a key the host latched in this iteration (attest_key Ok), or for the key read from
 /// the local store under the guid the host names as latched
-pub open spec fn may_publish(fs: Fs, w: W, k: Key) -> bool {
-    w.attested == Some(k) || (w.status matches Some(st) && st.keyGuid matches Some(g) && reads_as(fs, key_path(w.key_dir, g@), k))
+pub open spec fn may_publish(fs: Fs, h: Host, dir: PathId, k: Key) -> bool {
+    h.attested == Some(k) || (h.status matches Some(st) && st.keyGuid matches Some(g) && reads_as(fs, key_path(dir, g@), k))
 }
 /// acquire_key may be called only when no readable local key exists under the guid the host names as latched
-pub open spec fn may_acquire(fs: Fs, w: W) -> bool {
-    w.status matches Some(st) && (st.keyGuid matches Some(g) ==> !key_readable(fs, key_path(w.key_dir, g@)))
+pub open spec fn may_acquire(fs: Fs, h: Host, dir: PathId) -> bool {
+    h.status matches Some(st) && (st.keyGuid matches Some(g) ==> !key_readable(fs, key_path(dir, g@)))
 }
 
 /// key-store naming invariant (ASSUMED where used; store_local_key is the only writer and files a key under its own guid):
